@@ -50,12 +50,26 @@ structure Good (s : Sim) : Prop where
   /-- every raised `_is_isolated` flag is remembered in `_prev_isolated_*` (false across a restart: see C10) -/
   flagsJ : s.isoJ.length = s.net.n ∧ ∀ v, s.isoJ.getD v false = true → v ∈ s.prevIsoJ
   flagsL : s.isoL.length = s.net.nl ∧ ∀ l, s.isoL.getD l false = true → l ∈ s.prevIsoL
+  /-- tanks and reservoirs are never flagged (what lets `run_sim` seed `_prev_isolated_junctions` from `wn.junctions()` only) -/
+  srcOk : ∀ v ∈ s.net.sources, s.isoJ.getD v false = false
+
+/-- `_initialize_internal_graph` succeeds on this topology and builds a structure that meets the static contract; the link list
+is a permutation of pipes ++ pumps ++ valves.  None of this depends on the statuses (`initOk_indep`). -/
+def InitOk (net : Net) : Prop :=
+  (initGraph net [] []).1 = Outcome.ok ∧ (initGraph net [] []).2.Static ∧ net.initOrder.Perm (List.range net.nl)
+
+instance (net : Net) : Decidable (InitOk net) := by unfold InitOk; infer_instance
+
+theorem initOk_indep (net : Net) (user internal : List Nat) :
+    ((initGraph net user internal).1 = Outcome.ok ↔ (initGraph net [] []).1 = Outcome.ok) ∧
+    ((initGraph net user internal).2.Static ↔ (initGraph net [] []).2.Static) := ⟨Iff.rfl, Iff.rfl⟩
 
 /-- the data reflects the CURRENT statuses (true right after `_update_internal_graph`) -/
 def Synced (s : Sim) : Prop := DataOk s.net s.ndx s.status s.g.data
 
 def OpOk (net : Net) : Op → Prop
   | .act _ k _ => k < net.nl
+  | .restart => InitOk net
   | _ => True
 
 theorem getD_set_gen {α} (l : List α) (i j : Nat) (v d : α) :
@@ -108,7 +122,7 @@ theorem act_changed (s : Sim) (u : Bool) (k v : Nat) :
 theorem good_act {s : Sim} (h : Good s) (u : Bool) (k v : Nat) (hk : k < s.net.nl) : Good (act s u k v) := by
   obtain ⟨f1, f2, f3, f4, f5, f6, f7, f8, f9⟩ := act_frame s u k v
   obtain ⟨c1, c2, c3⟩ := act_changed s u k v
-  refine ⟨?_, ?_, ?_, ?_, ?_, ?_, ?_⟩
+  refine ⟨?_, ?_, ?_, ?_, ?_, ?_, ?_, ?_⟩
   · unfold Sim.Static; rw [f1, f2, f3, f4]; exact h.static
   · rw [f2]; exact h.dlen
   · rw [f1, f2, f3, f5]; exact h.data
@@ -126,6 +140,7 @@ theorem good_act {s : Sim} (h : Good s) (u : Bool) (k v : Nat) (hk : k < s.net.n
     · rw [h']; exact hk
   · rw [f6, f1, f8]; exact h.flagsJ
   · rw [f7, f1, f9]; exact h.flagsL
+  · rw [f6, f1]; exact h.srcOk
 
 theorem getD_map_range (f : Nat → Nat) (n k : Nat) (hk : k < n) : ((List.range n).map f).getD k 0 = f k := by
   simp [List.getD_eq_getElem?_getD, hk]
@@ -149,7 +164,7 @@ theorem good_update {s : Sim} (h : Good s) : Good (updateGraph s) ∧ Synced (up
   obtain ⟨_, hb, hpos, _, _, hmulti⟩ := h.static
   have hd := update_data_ok hpos hmulti hb (fun k => s.prev.getD k 0) s.status s.changed s.g.data h.dlen h.data h.chLt h.track
   have hsync : Synced (updateGraph s) := hd
-  refine ⟨⟨h.static, ?_, ?_, ?_, ?_, h.flagsJ, h.flagsL⟩, hsync⟩
+  refine ⟨⟨h.static, ?_, ?_, ?_, ?_, h.flagsJ, h.flagsL, h.srcOk⟩, hsync⟩
   · show (s.multi.foldl (multiStep s.ndx s.status) _).length = _
     rw [foldl_multiStep_length, foldl_writeLink_length]; exact h.dlen
   · apply DataOk_congr _ hd
@@ -325,6 +340,26 @@ theorem mem_isolatedIds {s : Sim} (hs : s.Static) (hd : Synced s) (v : Nat) :
   · rintro ⟨hv, hn⟩
     exact ⟨hv, by rw [d2 hn]; exact (getD_replicate_one _ _).mpr hv⟩
 
+/-- a tank / reservoir is never among the ids the search leaves at 1 (whatever the data) -/
+theorem source_not_isolated (s : Sim) (v : Nat) (hv : v ∈ s.net.sources) : v ∉ isolatedIds s := by
+  intro hm
+  unfold isolatedIds at hm
+  obtain ⟨hr, h1⟩ := List.mem_filter.mp hm
+  have hlt : v < s.net.n := List.mem_range.mp hr
+  have h0 := (dfs_reaches_exactly_aux s.g s.net.sources (List.replicate s.net.n 1) v).1
+    ⟨v, hv, (getD_replicate_one _ _).mpr hlt, Relation.ReflTransGen.refl⟩
+  rw [h0] at h1
+  exact absurd h1 (by decide)
+
+theorem getIsolated_src {s : Sim} (h : ∀ v ∈ s.net.sources, s.isoJ.getD v false = false) :
+    ∀ v ∈ (getIsolated s).net.sources, (getIsolated s).isoJ.getD v false = false := by
+  intro v hv
+  show (setAll (setAll s.isoJ s.prevIsoJ false) (isolatedIds s) true).getD v false = false
+  rw [getD_setAll, if_neg (fun c => source_not_isolated s v hv c.1), getD_setAll]
+  split
+  · rfl
+  · exact h v hv
+
 /-- `_get_isolated_junctions_and_links` on a synced graph: flags = exactly the cut-off nodes and their links,
 stale flags are cleared, and the invariant is kept -/
 theorem good_isolated {s : Sim} (h : Good s) (hd : Synced s) :
@@ -376,7 +411,7 @@ theorem good_isolated {s : Sim} (h : Good s) (hd : Synced s) :
           rw [getD_default_of_le _ _ _ (Nat.le_of_not_lt hlt)] at h'
           cases h'
         · intro h'; exact absurd h' c
-  refine ⟨⟨h.static, h.dlen, h.data, h.track, h.chLt, ⟨?_, ?_⟩, ⟨?_, ?_⟩⟩, hd, ?_, ?_⟩
+  refine ⟨⟨h.static, h.dlen, h.data, h.track, h.chLt, ⟨?_, ?_⟩, ⟨?_, ?_⟩, getIsolated_src h.srcOk⟩, hd, ?_, ?_⟩
   · show (setAll (setAll s.isoJ s.prevIsoJ false) (isolatedIds s) true).length = _
     rw [setAll_length, setAll_length]; exact h.flagsJ.1
   · intro v hv; exact ((hJ v).mp hv).1
@@ -395,68 +430,6 @@ theorem good_isolated {s : Sim} (h : Good s) (hd : Synced s) :
         exact ⟨h2, j, a, b, hl⟩
     · rintro ⟨h2, j, a, b, hl⟩
       exact ⟨Or.inr ⟨j, (mem_isolatedIds h.static hd j).mpr ⟨a, b⟩, hl⟩, h2⟩
-
-theorem good_step {s : Sim} (h : Good s) (op : Op) (hop : OpOk s.net op) : Good (step s op) := by
-  cases op with
-  | act u k v => exact good_act h u k v hop
-  | update => exact (good_update h).1
-  | isolated =>
-    -- without a preceding update the flags may be computed from stale data, but the invariant is kept:
-    -- only the flag clauses change, and they hold for any id list
-    refine ⟨h.static, h.dlen, h.data, h.track, h.chLt, ⟨?_, ?_⟩, ⟨?_, ?_⟩⟩
-    · show (setAll (setAll s.isoJ s.prevIsoJ false) (isolatedIds s) true).length = _
-      rw [setAll_length, setAll_length]; exact h.flagsJ.1
-    · intro v hv
-      have hv' : (setAll (setAll s.isoJ s.prevIsoJ false) (isolatedIds s) true).getD v false = true := hv
-      rw [getD_setAll] at hv'
-      by_cases c : v ∈ isolatedIds s ∧ v < (setAll s.isoJ s.prevIsoJ false).length
-      · exact c.1
-      · rw [if_neg c, getD_setAll] at hv'
-        by_cases c2 : v ∈ s.prevIsoJ ∧ v < s.isoJ.length
-        · rw [if_pos c2] at hv'; cases hv'
-        · rw [if_neg c2] at hv'
-          exfalso; apply c2
-          refine ⟨h.flagsJ.2 v hv', ?_⟩
-          apply Classical.byContradiction
-          intro hlt
-          rw [getD_default_of_le _ _ _ (Nat.le_of_not_lt hlt)] at hv'
-          cases hv'
-    · show (setAll (setAll s.isoL s.prevIsoL false) _ true).length = _
-      rw [setAll_length, setAll_length]; exact h.flagsL.1
-    · intro l hl
-      have hl' : (setAll (setAll s.isoL s.prevIsoL false)
-          ((isolatedIds s).foldl (fun acc j => addAll acc (s.net.linksOf j)) []) true).getD l false = true := hl
-      show l ∈ (isolatedIds s).foldl (fun acc j => addAll acc (s.net.linksOf j)) []
-      generalize (isolatedIds s).foldl (fun acc j => addAll acc (s.net.linksOf j)) [] = lks at hl' ⊢
-      rw [getD_setAll] at hl'
-      by_cases c : l ∈ lks ∧ l < (setAll s.isoL s.prevIsoL false).length
-      · exact c.1
-      · rw [if_neg c, getD_setAll] at hl'
-        by_cases c2 : l ∈ s.prevIsoL ∧ l < s.isoL.length
-        · rw [if_pos c2] at hl'; cases hl'
-        · rw [if_neg c2] at hl'
-          exfalso; apply c2
-          refine ⟨h.flagsL.2 l hl', ?_⟩
-          apply Classical.byContradiction
-          intro hlt
-          rw [getD_default_of_le _ _ _ (Nat.le_of_not_lt hlt)] at hl'
-          cases hl'
-  | prepare =>
-    obtain ⟨g1, g2⟩ := good_update h
-    exact (good_isolated g1 g2).1
-
-theorem step_net (s : Sim) (op : Op) : (step s op).net = s.net := by
-  cases op with
-  | act u k v => exact (act_frame s u k v).1
-  | update => rfl
-  | isolated => rfl
-  | prepare => rfl
-
-theorem run_net (s : Sim) (ops : List Op) : (run s ops).net = s.net := by
-  unfold run
-  induction ops generalizing s with
-  | nil => rfl
-  | cons op ops ih => rw [List.foldl_cons, ih, step_net]
 
 theorem getD_addAt (d : List Int) (q p : Nat) (v : Int) :
     (addAt d q v).getD p 0 = if q = p ∧ q < d.length then d.getD p 0 + v else d.getD p 0 := by
@@ -578,5 +551,233 @@ theorem setOpt2_read (d : List Int) (x y q : Nat) (hx : x < d.length) (hy : y < 
       rintro (h | h)
       · exact e1 h.symm
       · exact e2 h.symm
+
+theorem init_good (net : Net) (user internal : List Nat)
+    (hok : (initGraph net user internal).1 = Outcome.ok)
+    (hst : (initGraph net user internal).2.Static)
+    (hperm : net.initOrder.Perm (List.range net.nl)) :
+    Good (initGraph net user internal).2 ∧ Synced (initGraph net user internal).2 := by
+  obtain ⟨_, _, _, fmulti, fch, fJ, fL, fprev, findices, _, fndx, fdata, fsome⟩ := init_fields net user internal
+  have fsome := fsome hok
+  generalize hs0 : (initGraph net user internal).2 = s0 at *
+  have hnet : s0.net = net := by rw [← hs0]; rfl
+  obtain ⟨hends, hb, hpos, hin, hout, hmulti⟩ := hst
+  rw [hnet] at hends hb hpos hin hout hmulti
+  have hlen0 : (initG0 net).indices.length = s0.g.indices.length := by rw [findices]
+  -- positions of a link in terms of the index search
+  have hposk : ∀ k, k < net.nl →
+      getCsrDataIndex (initG0 net) (net.linkEnds k).1 (net.linkEnds k).2 = some (pos1 s0.ndx k) ∧
+      getCsrDataIndex (initG0 net) (net.linkEnds k).2 (net.linkEnds k).1 = some (pos2 s0.ndx k) := by
+    intro k hk
+    have hk' : k < net.links.length := hk
+    obtain ⟨a, b⟩ := fsome (net.links.getD k (0, 0)) (getD_mem_lt _ _ hk' _)
+    unfold pos1 pos2
+    rw [fndx, getD_map_lt _ net.links k hk' (0, 0) (0, 0)]
+    unfold Net.linkEnds
+    constructor
+    · cases h : getCsrDataIndex (initG0 net) (net.links.getD k (0, 0)).1 (net.links.getD k (0, 0)).2 with
+      | none => rw [h] at a; cases a
+      | some x => rfl
+    · cases h : getCsrDataIndex (initG0 net) (net.links.getD k (0, 0)).2 (net.links.getD k (0, 0)).1 with
+      | none => rw [h] at b; cases b
+      | some x => rfl
+  have hsync : DataOk net s0.ndx s0.status s0.g.data := by
+    intro k hk p hp
+    rw [fdata]
+    apply pass_fold s0.status s0.g.indices.length (initStep (initG0 net) s0.ndx s0.status)
+      (initStep_length (initG0 net) s0.ndx s0.status) k p (multiTable net)
+    · intro e he d hdlen
+      have he' : e ∈ s0.multi := by rw [fmulti]; exact he
+      have hE := entryOk_of_multiOk hmulti e he'
+      obtain ⟨k0, hk0, hkey, hall, _⟩ := hmulti.1 e he'
+      have hk0lt := (hall k0 hk0).1
+      obtain ⟨q1, q2⟩ := hposk k0 hk0lt
+      have b1 : pos1 s0.ndx k0 < d.length := by rw [hdlen]; exact (hb k0 hk0lt).1
+      have b2 : pos2 s0.ndx k0 < d.length := by rw [hdlen]; exact (hb k0 hk0lt).2
+      -- the two zeroed positions are the two positions of k0
+      have hz : ∀ q, (setOpt (setOpt d (getCsrDataIndex (initG0 net) e.1.1 e.1.2) 0) (getCsrDataIndex (initG0 net) e.1.2 e.1.1) 0).getD q 0
+          = if inPs s0.ndx k0 q then 0 else d.getD q 0 := by
+        intro q
+        rcases hkey with hkey | hkey
+        · rw [← hkey, q1, q2, setOpt2_read d _ _ q b1 b2]; rfl
+        · have e1 : e.1.1 = (net.linkEnds k0).2 := by rw [hkey]
+          have e2 : e.1.2 = (net.linkEnds k0).1 := by rw [hkey]
+          rw [e1, e2, q1, q2, setOpt2_read d _ _ q b2 b1]
+          by_cases c : inPs s0.ndx k0 q
+          · rw [if_pos c, if_pos (Or.symm c)]
+          · rw [if_neg c, if_neg (fun h => c (Or.symm h))]
+      have := pass_step hpos s0.g.indices.length hb s0.status e.2 hE
+        (setOpt (setOpt d (getCsrDataIndex (initG0 net) e.1.1 e.1.2) 0) (getCsrDataIndex (initG0 net) e.1.2 e.1.1) 0) d
+        (by rw [setOpt_length, setOpt_length]; exact hdlen)
+        (by
+          intro first tl hl q
+          have hf : first ∈ e.2 := by rw [hl]; exact List.mem_cons_self
+          obtain ⟨hflt, hsp⟩ := hall first hf
+          have hiff := inPs_iff_of_samePair hpos hk0lt hflt hsp q
+          rw [hz q]
+          constructor
+          · intro h; rw [if_pos (hiff.mpr h)]
+          · intro h; rw [if_neg (fun h' => h (hiff.mp h'))])
+        k hk p hp
+      exact this
+    · rw [foldl_addAt_length, List.length_replicate, hlen0]
+    · intro hno
+      have hs : single net k := by
+        apply Classical.byContradiction
+        intro hns
+        obtain ⟨e, he, hke⟩ := not_single_inMulti hmulti hk hns
+        rw [fmulti] at he
+        exact hno e he hke
+      have hne : pos1 s0.ndx k ≠ pos2 s0.ndx k := by
+        intro heq
+        obtain ⟨⟨_, _, _, c1⟩, ⟨_, _, _, c2⟩⟩ := hin k hk
+        rw [heq] at c1
+        exact (hends.1 k hk).2.2 (c2.symm.trans c1)
+      rw [accumulate_single hpos s0.g.indices.length hb (fun c => openVal (s0.status c)) k hk hs hne p hp net.initOrder _
+        (hperm.nodup_iff.mpr List.nodup_range) (fun c hc => List.mem_range.mp (hperm.mem_iff.mp hc))
+        (by rw [List.length_replicate, hlen0])]
+      have hin' : k ∈ net.initOrder := hperm.mem_iff.mpr (List.mem_range.mpr hk)
+      rw [if_pos hin']
+      have : (List.replicate (initG0 net).indices.length (0 : Int)).getD p 0 = 0 := by
+        simp only [List.getD_eq_getElem?_getD, List.getElem?_replicate]
+        split <;> rfl
+      rw [this, Int.zero_add]
+      exact okAt_openVal_single hk hs
+  have hprev : ∀ k, k < net.nl → s0.status k = s0.prev.getD k 0 := by
+    intro k hk
+    rw [fprev]
+    exact (getD_map_range s0.status _ k hk).symm
+  have hfalse : ∀ (n v : Nat), (List.replicate n false).getD v false = true → False := by
+    intro n v h
+    simp only [List.getD_eq_getElem?_getD, List.getElem?_replicate] at h
+    split at h <;> cases h
+  refine ⟨⟨?_, ?_, ?_, ?_, ?_, ⟨?_, ?_⟩, ⟨?_, ?_⟩, ?_⟩, ?_⟩
+  · unfold Sim.Static; rw [hnet]; exact ⟨hends, hb, hpos, hin, hout, hmulti⟩
+  · rw [fdata]
+    have : ∀ (es : List ((Nat × Nat) × List Nat)) (d : List Int),
+        (es.foldl (initStep (initG0 net) s0.ndx s0.status) d).length = d.length := by
+      intro es
+      induction es with
+      | nil => intro d; rfl
+      | cons e es ih => intro d; rw [List.foldl_cons, ih, initStep_length]
+    rw [this, foldl_addAt_length, List.length_replicate, hlen0]
+  · rw [hnet]; exact DataOk_congr hprev hsync
+  · intro k hk hne
+    rw [hnet] at hk
+    exact absurd (hprev k hk) hne
+  · intro c hc; rw [fch] at hc; cases hc
+  · rw [fJ, hnet, List.length_replicate]
+  · intro v hv; rw [fJ] at hv; exact (hfalse _ _ hv).elim
+  · rw [fL, hnet, List.length_replicate]; rfl
+  · intro l hl; rw [fL] at hl; exact (hfalse _ _ hl).elim
+  · intro v _
+    rw [fJ]
+    cases hb : (List.replicate net.n false).getD v false with
+    | false => rfl
+    | true => exact (hfalse _ _ hb).elim
+  · unfold Synced; rw [hnet]; exact hsync
+
+
+/-- the head of `run_sim` on a network that may still carry flags (a continued run, possibly with a NEW simulator object):
+because the previously-isolated sets are seeded from the flags of ALL junctions and ALL links, the invariant holds again -/
+theorem good_restart {s : Sim} (hJ : s.isoJ.length = s.net.n) (hL : s.isoL.length = s.net.nl)
+    (hsrc : ∀ v ∈ s.net.sources, s.isoJ.getD v false = false) (hinit : InitOk s.net) :
+    Good (startRun s).2 ∧ Synced (startRun s).2 := by
+  obtain ⟨hok, hst, hperm⟩ := hinit
+  obtain ⟨g, hsync⟩ := init_good s.net s.user s.internal hok hst hperm
+  have hnet : (initGraph s.net s.user s.internal).2.net = s.net := rfl
+  refine ⟨⟨g.static, g.dlen, g.data, g.track, g.chLt, ⟨?_, ?_⟩, ⟨?_, ?_⟩, ?_⟩, hsync⟩
+  · exact hJ
+  · intro v hv
+    show v ∈ s.net.junctions.filter fun v => s.isoJ.getD v false
+    have hlt : v < s.net.n := by
+      apply Classical.byContradiction
+      intro hn
+      have hv' : s.isoJ.getD v false = true := hv
+      rw [getD_default_of_le _ _ _ (by rw [hJ]; exact Nat.le_of_not_lt hn)] at hv'
+      cases hv'
+    refine List.mem_filter.mpr ⟨List.mem_filter.mpr ⟨List.mem_range.mpr hlt, ?_⟩, hv⟩
+    cases hc : s.net.sources.contains v with
+    | false => rfl
+    | true =>
+      have hm : v ∈ s.net.sources := List.contains_iff_mem.mp hc
+      have hv' : s.isoJ.getD v false = true := hv
+      rw [hsrc v hm] at hv'
+      cases hv'
+  · exact hL
+  · intro l hl
+    show l ∈ (List.range s.net.links.length).filter fun l => s.isoL.getD l false
+    have hlt : l < s.net.links.length := by
+      apply Classical.byContradiction
+      intro hn
+      have hl' : s.isoL.getD l false = true := hl
+      rw [getD_default_of_le _ _ _ (by rw [hL]; exact Nat.le_of_not_lt hn)] at hl'
+      cases hl'
+    exact List.mem_filter.mpr ⟨List.mem_range.mpr hlt, hl⟩
+  · exact hsrc
+
+theorem good_step {s : Sim} (h : Good s) (op : Op) (hop : OpOk s.net op) : Good (step s op) := by
+  cases op with
+  | act u k v => exact good_act h u k v hop
+  | update => exact (good_update h).1
+  | isolated =>
+    -- without a preceding update the flags may be computed from stale data, but the invariant is kept:
+    -- only the flag clauses change, and they hold for any id list
+    refine ⟨h.static, h.dlen, h.data, h.track, h.chLt, ⟨?_, ?_⟩, ⟨?_, ?_⟩, getIsolated_src h.srcOk⟩
+    · show (setAll (setAll s.isoJ s.prevIsoJ false) (isolatedIds s) true).length = _
+      rw [setAll_length, setAll_length]; exact h.flagsJ.1
+    · intro v hv
+      have hv' : (setAll (setAll s.isoJ s.prevIsoJ false) (isolatedIds s) true).getD v false = true := hv
+      rw [getD_setAll] at hv'
+      by_cases c : v ∈ isolatedIds s ∧ v < (setAll s.isoJ s.prevIsoJ false).length
+      · exact c.1
+      · rw [if_neg c, getD_setAll] at hv'
+        by_cases c2 : v ∈ s.prevIsoJ ∧ v < s.isoJ.length
+        · rw [if_pos c2] at hv'; cases hv'
+        · rw [if_neg c2] at hv'
+          exfalso; apply c2
+          refine ⟨h.flagsJ.2 v hv', ?_⟩
+          apply Classical.byContradiction
+          intro hlt
+          rw [getD_default_of_le _ _ _ (Nat.le_of_not_lt hlt)] at hv'
+          cases hv'
+    · show (setAll (setAll s.isoL s.prevIsoL false) _ true).length = _
+      rw [setAll_length, setAll_length]; exact h.flagsL.1
+    · intro l hl
+      have hl' : (setAll (setAll s.isoL s.prevIsoL false)
+          ((isolatedIds s).foldl (fun acc j => addAll acc (s.net.linksOf j)) []) true).getD l false = true := hl
+      show l ∈ (isolatedIds s).foldl (fun acc j => addAll acc (s.net.linksOf j)) []
+      generalize (isolatedIds s).foldl (fun acc j => addAll acc (s.net.linksOf j)) [] = lks at hl' ⊢
+      rw [getD_setAll] at hl'
+      by_cases c : l ∈ lks ∧ l < (setAll s.isoL s.prevIsoL false).length
+      · exact c.1
+      · rw [if_neg c, getD_setAll] at hl'
+        by_cases c2 : l ∈ s.prevIsoL ∧ l < s.isoL.length
+        · rw [if_pos c2] at hl'; cases hl'
+        · rw [if_neg c2] at hl'
+          exfalso; apply c2
+          refine ⟨h.flagsL.2 l hl', ?_⟩
+          apply Classical.byContradiction
+          intro hlt
+          rw [getD_default_of_le _ _ _ (Nat.le_of_not_lt hlt)] at hl'
+          cases hl'
+  | prepare =>
+    obtain ⟨g1, g2⟩ := good_update h
+    exact (good_isolated g1 g2).1
+  | restart => exact (good_restart h.flagsJ.1 h.flagsL.1 h.srcOk hop).1
+
+theorem step_net (s : Sim) (op : Op) : (step s op).net = s.net := by
+  cases op with
+  | act u k v => exact (act_frame s u k v).1
+  | update => rfl
+  | isolated => rfl
+  | prepare => rfl
+  | restart => rfl
+
+theorem run_net (s : Sim) (ops : List Op) : (run s ops).net = s.net := by
+  unfold run
+  induction ops generalizing s with
+  | nil => rfl
+  | cons op ops ih => rw [List.foldl_cons, ih, step_net]
 
 end Wntr.Isolation
